@@ -12,6 +12,7 @@ import (
 	"github.com/oasisprotocol/curve25519-voi/curve"
 	"github.com/oasisprotocol/curve25519-voi/curve/scalar"
 	"github.com/oasisprotocol/curve25519-voi/zzverif/gen"
+	"github.com/oasisprotocol/curve25519-voi/zzverif/hist"
 	"github.com/oasisprotocol/curve25519-voi/zzverif/gx"
 	"github.com/oasisprotocol/curve25519-voi/zzverif/mon"
 	"github.com/oasisprotocol/curve25519-voi/zzverif/ref"
@@ -28,6 +29,7 @@ type Case struct {
 type ctx struct {
 	r *mon.Run
 	c Case
+	h *hist.Pool // decoder receivers with a past (package hist)
 }
 
 var bB = ref.Encode(ref.B)
@@ -58,13 +60,13 @@ func (x *ctx) decodeString(b []byte) {
 	if got := cy.IsCanonicalVartime(); got != d.Canonical {
 		r.Violate(fmt.Sprintf("edwards/IsCanonicalVartime/want=%v", d.Canonical), fmt.Sprintf("got %v; %s", got, det()), x.c)
 	}
-	p := loadedB()
+	p := x.h.EVal(curve.ED25519_BASEPOINT_POINT) // a receiver with a past, currently holding B
 	_, err := p.SetCompressedY(&cy)
 	if (err == nil) != d.OK {
 		r.Violate(fmt.Sprintf("edwards/SetCompressedY/accept/want=%v", d.OK), fmt.Sprintf("err=%v; %s", err, det()), x.c)
 		return
 	}
-	q := loadedB()
+	q := x.h.EVal(curve.ED25519_BASEPOINT_POINT)
 	err2 := q.UnmarshalBinary(b)
 	if (err2 == nil) != d.OK {
 		r.Violate(fmt.Sprintf("edwards/UnmarshalBinary/accept/want=%v", d.OK), fmt.Sprintf("err=%v; %s", err2, det()), x.c)
@@ -249,7 +251,7 @@ func (x *ctx) lengths(rng *rand.Rand) {
 			det := func() string { return fmt.Sprintf("len=%d fill=%d", l, fill) }
 			r.Eval([]byte(det()))
 			r.Hist("lengths")
-			p := loadedB()
+			p := x.h.EVal(curve.ED25519_BASEPOINT_POINT)
 			var err error
 			if pan, msg := mon.Try(func() { err = p.UnmarshalBinary(b) }); pan {
 				r.Violate("edwards/UnmarshalBinary/panic", msg+"; "+det(), x.c)
@@ -357,7 +359,7 @@ func (x *ctx) montgomery(rng *rand.Rand) {
 			copy(m[:], ub)
 			var p *curve.EdwardsPoint
 			var err error
-			if pan, msg := mon.Try(func() { p, err = curve.NewEdwardsPoint().SetMontgomery(&m, sign) }); pan {
+			if pan, msg := mon.Try(func() { p, err = x.h.E().SetMontgomery(&m, sign) }); pan {
 				r.Violate("montgomery/SetMontgomery/panic", msg+"; "+det(), x.c)
 				continue
 			}
@@ -406,7 +408,8 @@ func yString(y *big.Int, sign uint) []byte {
 }
 
 func runCase(r *mon.Run, c Case) {
-	x := &ctx{r: r, c: c}
+	x := &ctx{r: r, c: c, h: hist.New(r.Rng(c.Stream + "/receivers"))}
+	defer func() { r.HistN("receivers-with-a-past", x.h.Uses) }()
 	rng := r.Rng(c.Stream)
 	switch c.Kind {
 	case "string":
